@@ -120,6 +120,22 @@ def check_repartition(spec):
     else:
         raise ValueError(kind)
     F.assert_eq(got, pdf, what=f"repartition({short(op, 120)}) of {short(src.divisions, 120)}", sig=sig)
+    # the same source repartitioned a second time with another target, both results in ONE graph: each keeps its rows
+    sib = None
+    if kind == "partition_size" and isinstance(size, int):
+        sibs = [max(1, size // 2), max(1, size // 3)]
+    elif kind == "npartitions":
+        sibs = [n + 1, max(1, n - 1)]
+    else:
+        sibs = []
+    for other in sibs:
+        with impl(f"repartition({kind}) twice in one graph", together=True, **sig), C.quiet():
+            import dask
+
+            sib = src.repartition(**{kind: other})
+            g1, g2 = dask.compute(out, sib, scheduler="sync")
+        F.assert_eq(g1, pdf, what=f"repartition({kind}={short(op, 80)}) computed together with repartition({kind}={other})", sig=dict(sig, together=True))
+        F.assert_eq(g2, pdf, what=f"repartition({kind}={other}) computed together with repartition({short(op, 80)})", sig=dict(sig, together=True))
 
 
 def check_from_pandas(spec):
